@@ -20,7 +20,7 @@ func init() {
 		Explain: "Decides: retryOnError calls the operation before any return, whatever Admin.Retry.Max is (C19.attempt); the retried operation carries no state from one attempt to the next — every variable it both writes and reads is its own or re-initialised first — so a later clean acknowledgement is not overruled by an earlier attempt's error (C19.attempt-local); each controller-bound operation sends its request to the broker returned by Controller() inside the retried closure, refreshes the controller on NOT_CONTROLLER and returns an error the retry predicate recognises (C19.controller); success (nil) is returned only when the item is present and its error code is ErrNoError (C19.verdict); leader/coordinator-bound operations take their broker from Leader()/Coordinator(), per item when they span several (C19.routing); " +
 			"every constant request version stored anywhere in the library is guarded by a configured-version test that implies the version the request type itself requires, so Broker.send cannot refuse it with ErrUnsupportedVersion (C19.version); the fan-out operations pair every WaitGroup.Add with a Done (C12.pairing, shared). " +
 			"NOT covered: number of controller moves versus Retry.Max at run time, the brokers' verdicts themselves.",
-		Rules: []func(*Ctx){c19Attempt, c19AttemptLocal, c19PerRequestFresh, c19Controller, c19Verdict, c19Routing, c19Version, c12Pairing},
+		Rules: []func(*Ctx){c19Attempt, c19AttemptLocal, c19PerRequestFresh, c19Controller, c19Verdict, c19KErrorOrdered, c19Routing, c19Version, c12Pairing, c15Brokers},
 	})
 }
 
@@ -470,6 +470,44 @@ func c19Controller(c *Ctx) {
 			c.Check(it.IsZero() && okType, rule, op, "not-controller-refresh-and-retry", st.at, "on ErrNotController the controller is refreshed and a retriable error returned",
 				"on ErrNotController "+p.Name(host)+" does not refresh the controller before returning, or returns an error ("+badType+") that isErrNoController does not recognise: no retry on the new controller", path)
 		}
+	}
+}
+
+// c19KErrorOrdered: Kafka error codes are labels, not magnitudes — ErrUnknown is -1.  A test such as
+// `code > 0` lets a negative code through as success.
+func c19KErrorOrdered(c *Ctx) {
+	p := c.P
+	rule := "C19.verdict"
+	n := 0
+	for _, fn := range p.Fns {
+		if fn.Pkg != p.Sarama || p.inFile(fn, "mockbroker.go") || p.inFile(fn, "mockresponses.go") {
+			continue
+		}
+		for _, b := range fn.Blocks {
+			for _, in := range b.Instrs {
+				bo, ok := in.(*ssa.BinOp)
+				if !ok {
+					continue
+				}
+				nx, _ := NamedOf(bo.X.Type())
+				ny, _ := NamedOf(bo.Y.Type())
+				if nx != "KError" && ny != "KError" {
+					continue
+				}
+				switch bo.Op {
+				case token.EQL, token.NEQ:
+					n++
+				case token.LSS, token.GTR, token.LEQ, token.GEQ:
+					n++
+					c.Fail(rule, fn, "kerror-compared-by-order", bo, "a Kafka error code is tested with an ordering comparison ("+bo.Op.String()+"): codes are labels, ErrUnknown is -1 — a negative code passes as success (or a positive one as failure); compare with ErrNoError using == / !=", nil)
+				}
+			}
+		}
+	}
+	if n < 50 {
+		c.Unresolved(rule, fmt.Sprintf("comparisons of KError values (found %d, expected ≥ 50)", n))
+	} else {
+		c.OK(rule, nil, "kerror-compared-by-equality", nil, fmt.Sprintf("%d comparisons of KError values in the package, none by order", n))
 	}
 }
 
